@@ -994,15 +994,24 @@ const WORLD_DOCS: &[&str] = &[
     "VecU8", "VecU128", "IncrA", "IncrB", "DeepD", "TupleSD", "ArrU64x4", "E9D", "BoundString", "CfStrVec", "ConstGen3", "PhantomD", "VecPair", "Unit",
 ];
 
+fn pick_vi(r: &mut Rng, max_vi: u64) -> u64 {
+    match r.below(12) {
+        0 => 0,
+        1 => 1,
+        2 => 2,
+        3 => 5,
+        _ => 6 + r.below(max_vi),
+    }
+}
+
 pub fn gen_ops(r: &mut Rng, c09: bool, tier: Tier) -> Vec<Op> {
     let loaders = Loader::AVAILABLE;
     let nops = r.range(6, 18) as usize;
     let mut ops = Vec::new();
     let (mut nfiles, mut nslots) = (0usize, 0usize);
-    let max_vi = match tier {
-        Tier::Quick => 12,
-        Tier::Thorough => 40,
-    };
+    // value index: the small special values (empty, one element, a few, > 8 KiB) or any of 2^16 seeded values
+    let _ = tier;
+    let max_vi: u64 = 1 << 16;
     let actor = |r: &mut Rng| r.below(3) as u8;
     // swarm: per-run weights
     let w_bad = if c09 { r.range(1, 6) } else { 0 };
@@ -1010,7 +1019,7 @@ pub fn gen_ops(r: &mut Rng, c09: bool, tier: Tier) -> Vec<Op> {
     let w_sys = if c09 { r.below(4) } else { 0 };
     while ops.len() < nops {
         if nfiles == 0 {
-            ops.push(Op::Store { actor: actor(r), doc: r.pick(WORLD_DOCS).to_string(), vi: r.below(max_vi), over: None });
+            ops.push(Op::Store { actor: actor(r), doc: r.pick(WORLD_DOCS).to_string(), vi: pick_vi(r, max_vi), over: None });
             nfiles += 1;
             continue;
         }
@@ -1025,7 +1034,7 @@ pub fn gen_ops(r: &mut Rng, c09: bool, tier: Tier) -> Vec<Op> {
         let op = match k {
             0..=3 => {
                 nfiles += 1;
-                Op::Store { actor: actor(r), doc: r.pick(WORLD_DOCS).to_string(), vi: r.below(max_vi), over: if r.chance(1, 4) { Some(r.next() as usize) } else { None } }
+                Op::Store { actor: actor(r), doc: r.pick(WORLD_DOCS).to_string(), vi: pick_vi(r, max_vi), over: if r.chance(1, 4) { Some(r.next() as usize) } else { None } }
             }
             4..=11 => {
                 nslots += 1;
